@@ -1,38 +1,714 @@
-//! C20 probe (temporary)
+//! C20 -- scalar functions and arithmetic match their definitions.
+//! Drives the REAL implementation: `SELECT <expr>` on a `turdb::Database` and the public
+//! `turdb::sql::functions::eval_function(name, args)`, on generated arguments, and writes what it
+//! observed as Coq terms (coq/Corr/C20.v judges them against Model/Arith.v ... and the property's oracle).
+//!   c20 gen    --seed S --tier T --out DIR [--lines FILE]
+//!   c20 search --seed S --budget N --out FILE       (oracle only: Rust port of the exact semantics)
+//!   c20 sql FILE                                     (debug: run the statements of FILE, print results)
+use std::borrow::Cow;
+use std::path::PathBuf;
 use tvh::*;
+use turdb::types::Value;
 use turdb::{Database, OwnedValue};
-fn show(v: &OwnedValue) -> String {
-    match v {
-        OwnedValue::Null => "NULL".into(),
-        OwnedValue::Int(i) => format!("{}", i),
-        OwnedValue::Float(f) => format!("{:?}f", f),
-        OwnedValue::Text(s) => format!("'{}'", s),
-        OwnedValue::Bool(b) => format!("{}", b),
-        o => format!("{:?}", o),
-    }
-}
+
 fn main() {
     let a = Args::parse();
+    if std::env::var("C20_DEBUG").is_ok() {
+        std::panic::set_hook(Box::new(|i| { if let Some(l) = i.location() { if true { eprintln!("panic at {}:{}", l.file(), l.line()); } } }));
+    }
+    match a.mode.as_str() {
+        "gen" => { if let Caught::Panicked(m) = catch(std::panic::AssertUnwindSafe(|| gen(&a))) { eprintln!("c20 gen: harness panic: {}", m); std::process::exit(3); } }
+        "search" => search(&a),
+        "sql" => sql_mode(&a),
+        _ => { eprintln!("c20: unknown mode"); std::process::exit(2); }
+    }
+}
+
+// ------------------------------------------------------------------ observed outcomes
+#[derive(Clone, Debug, PartialEq)]
+enum V { Null, Int(i64), FltI(i128), Text(Vec<u8>), Other }
+#[derive(Clone, Debug, PartialEq)]
+enum Out { Val(V), None, Panic, Err }
+
+fn zi(v: i128) -> String { if v < 0 { format!("({})", v) } else { format!("{}", v) } }
+impl V {
+    fn coq(&self) -> String {
+        match self {
+            V::Null => "VNull".into(),
+            V::Int(n) => format!("(VInt {})", zi(*n as i128)),
+            V::FltI(n) => format!("(VFltI {})", zi(*n)),
+            V::Text(b) => format!("(VText {})", cbytes(b)),
+            V::Other => "VOther".into(),
+        }
+    }
+}
+impl Out {
+    fn coq(&self) -> String {
+        match self {
+            Out::Val(v) => format!("(OVal {})", v.coq()),
+            Out::None => "ONone".into(),
+            Out::Panic => "OPanic".into(),
+            Out::Err => "OErr".into(),
+        }
+    }
+    fn bucket(&self) -> &'static str {
+        match self { Out::Val(V::Null) => "null", Out::Val(_) => "value", Out::None => "none", Out::Panic => "panic", Out::Err => "error" }
+    }
+}
+fn flt(f: f64) -> V {
+    if f.is_finite() && f == f.trunc() && f.abs() < 1e30 { V::FltI(f as i128) } else { V::Other }
+}
+fn from_owned(v: &OwnedValue) -> V {
+    match v {
+        OwnedValue::Null => V::Null,
+        OwnedValue::Int(i) => V::Int(*i),
+        OwnedValue::Float(f) => flt(*f),
+        OwnedValue::Text(s) => V::Text(s.as_bytes().to_vec()),
+        _ => V::Other,
+    }
+}
+fn from_value(v: &Value<'_>) -> V {
+    match v {
+        Value::Null => V::Null,
+        Value::Int(i) => V::Int(*i),
+        Value::Float(f) => flt(*f),
+        Value::Text(s) => V::Text(s.as_bytes().to_vec()),
+        _ => V::Other,
+    }
+}
+
+// ------------------------------------------------------------------ the database under test
+fn scratch_root() -> PathBuf {
+    // memory-backed when available (a fresh database is created after every panic), else <verif>/build/tmp
+    let shm = PathBuf::from("/dev/shm");
+    let base = if shm.is_dir() { shm } else {
+        let exe = std::env::current_exe().ok();
+        exe.as_ref().and_then(|p| p.parent()).and_then(|p| p.parent()).and_then(|p| p.parent())
+            .map(|p| p.join("tmp")).unwrap_or_else(|| PathBuf::from("/verif/build/tmp"))
+    };
+    base.join(format!("tv-c20-{}", std::process::id()))
+}
+struct Sut { db: Option<Database>, dir: PathBuf, seq: u64, pub created: u64 }
+impl Sut {
+    fn new() -> Sut { Sut { db: None, dir: scratch_root(), seq: 0, created: 0 } }
+    fn cleanup(&mut self) { self.db = None; let _ = std::fs::remove_dir_all(&self.dir); }
+    fn fresh(&mut self) {
+        self.db = None;
+        let _ = std::fs::remove_dir_all(&self.dir);
+        std::fs::create_dir_all(&self.dir).expect("mkdir scratch");
+        self.seq += 1;
+        let db = Database::create(self.dir.join(format!("db{}", self.seq))).expect("create database");
+        db.execute("CREATE TABLE one (id INT)").expect("create table");
+        db.execute("INSERT INTO one VALUES (1)").expect("insert");
+        self.created += 1;
+        self.db = Some(db);
+    }
+    /// first column of the single row of `sql`
+    fn select1(&mut self, sql: &str) -> Out {
+        if self.db.is_none() { self.fresh(); }
+        let db = self.db.as_ref().unwrap();
+        let r = catch(std::panic::AssertUnwindSafe(|| db.query(sql).map_err(|e| format!("{:#}", e))));
+        match r {
+            Caught::Panicked(_) => { self.db = None; Out::Panic }          // do not reuse a database that panicked
+            Caught::Done(Err(_)) => Out::Err,
+            Caught::Done(Ok(rows)) => {
+                if rows.len() == 1 && rows[0].values.len() == 1 { Out::Val(from_owned(&rows[0].values[0])) } else { Out::Val(V::Other) }
+            }
+        }
+    }
+}
+
+fn call_direct(name: &str, args: &[Option<Value<'static>>]) -> Out {
+    let name = name.to_string();
+    let args = args.to_vec();
+    match catch(std::panic::AssertUnwindSafe(move || turdb::sql::functions::eval_function(&name, &args).map(|v| from_value(&v)))) {
+        Caught::Panicked(_) => Out::Panic,
+        Caught::Done(None) => Out::None,
+        Caught::Done(Some(v)) => Out::Val(v),
+    }
+}
+
+// ------------------------------------------------------------------ integer expressions
+#[derive(Clone, Copy, Debug, PartialEq)]
+enum Bop { Add, Sub, Mul, Div, Rem, Pow, Shl, Shr, BAnd, BOr }
+#[derive(Clone, Copy, Debug, PartialEq)]
+enum Uop { Neg, Pos, BNot }
+#[derive(Clone, Debug, PartialEq)]
+enum E { Lit(u64), Null, Un(Uop, Box<E>), Bin(Bop, Box<E>, Box<E>) }
+
+const BOPS: [(Bop, &str, &str); 10] = [
+    (Bop::Add, "+", "Add"), (Bop::Sub, "-", "Sub"), (Bop::Mul, "*", "Mul"), (Bop::Div, "/", "Div"), (Bop::Rem, "%", "Rem"),
+    (Bop::Pow, "^", "Pow"), (Bop::Shl, "<<", "Shl"), (Bop::Shr, ">>", "Shr"), (Bop::BAnd, "&", "BAnd"), (Bop::BOr, "|", "BOr")];
+const UOPS: [(Uop, &str, &str, &str); 3] = [(Uop::Neg, "-", "Neg", "neg"), (Uop::Pos, "+", "Pos", "pos"), (Uop::BNot, "~", "BNot", "not")];
+fn bsym(o: Bop) -> &'static str { BOPS.iter().find(|x| x.0 == o).unwrap().1 }
+fn bcoq(o: Bop) -> &'static str { BOPS.iter().find(|x| x.0 == o).unwrap().2 }
+
+impl E {
+    /// the expression whose value is the integer v (SQL has no negative literals)
+    fn of_int(v: i64) -> E {
+        if v >= 0 { E::Lit(v as u64) }
+        else if v == i64::MIN { E::Bin(Bop::Sub, Box::new(E::Un(Uop::Neg, Box::new(E::Lit(i64::MAX as u64)))), Box::new(E::Lit(1))) }
+        else { E::Un(Uop::Neg, Box::new(E::Lit((-v) as u64))) }
+    }
+    fn sql(&self) -> String {
+        match self {
+            E::Lit(n) => format!("{}", n),
+            E::Null => "NULL".into(),
+            E::Un(o, a) => format!("({}({}))", UOPS.iter().find(|x| x.0 == *o).unwrap().1, a.sql()),
+            E::Bin(o, l, r) => format!("(({}) {} ({}))", l.sql(), bsym(*o), r.sql()),
+        }
+    }
+    fn coq(&self) -> String {
+        match self {
+            E::Lit(n) => format!("(ELit {})", n),
+            E::Null => "ENull".into(),
+            E::Un(o, a) => format!("(EUn {} {})", UOPS.iter().find(|x| x.0 == *o).unwrap().2, a.coq()),
+            E::Bin(o, l, r) => format!("(EBin {} {} {})", bcoq(*o), l.coq(), r.coq()),
+        }
+    }
+    fn sexp(&self) -> String {
+        match self {
+            E::Lit(n) => format!("{}", n),
+            E::Null => "NULL".into(),
+            E::Un(o, a) => format!("({} {})", UOPS.iter().find(|x| x.0 == *o).unwrap().3, a.sexp()),
+            E::Bin(o, l, r) => format!("({} {} {})", bsym(*o), l.sexp(), r.sexp()),
+        }
+    }
+    fn parse(s: &str) -> Option<E> {
+        let toks: Vec<String> = s.replace('(', " ( ").replace(')', " ) ").split_whitespace().map(|x| x.to_string()).collect();
+        let mut pos = 0;
+        let e = E::parse_toks(&toks, &mut pos)?;
+        if pos == toks.len() { Some(e) } else { None }
+    }
+    fn parse_toks(t: &[String], pos: &mut usize) -> Option<E> {
+        let tok = t.get(*pos)?.clone();
+        *pos += 1;
+        if tok == "(" {
+            let head = t.get(*pos)?.clone();
+            *pos += 1;
+            let e = if let Some(u) = UOPS.iter().find(|x| x.3 == head) {
+                let a = E::parse_toks(t, pos)?;
+                E::Un(u.0, Box::new(a))
+            } else {
+                let b = BOPS.iter().find(|x| x.1 == head)?;
+                let l = E::parse_toks(t, pos)?;
+                let r = E::parse_toks(t, pos)?;
+                E::Bin(b.0, Box::new(l), Box::new(r))
+            };
+            if t.get(*pos)? != ")" { return None; }
+            *pos += 1;
+            Some(e)
+        } else if tok == "NULL" { Some(E::Null) } else { tok.parse::<u64>().ok().map(E::Lit) }
+    }
+}
+
+/// Rust port of Model/Arith.v `exact` (the property's oracle), used by `search` and for the statistics
+#[derive(Clone, Copy, Debug, PartialEq)]
+enum X { Int(i64), NullP, DivZ, Over, Any }
+fn in64(x: i128) -> X { if x >= i64::MIN as i128 && x <= i64::MAX as i128 { X::Int(x as i64) } else { X::Over } }
+fn exact_pow(a: i64, b: i64) -> X {
+    if b == 0 { X::Int(1) } else if a == 0 { X::Int(0) } else if a == 1 { X::Int(1) }
+    else if a == -1 { X::Int(if b % 2 == 0 { 1 } else { -1 }) }
+    else if b >= 64 { X::Over }
+    else {
+        let mut acc: i128 = 1;
+        for _ in 0..b { acc = match acc.checked_mul(a as i128) { Some(v) if v.unsigned_abs() <= (1u128 << 100) => v, _ => return X::Over }; }
+        in64(acc)
+    }
+}
+fn exact_bin(o: Bop, a: i64, b: i64) -> X {
+    let (x, y) = (a as i128, b as i128);
+    match o {
+        Bop::Add => in64(x + y), Bop::Sub => in64(x - y), Bop::Mul => in64(x * y),
+        Bop::Div => if b == 0 { X::DivZ } else { in64(x / y) },
+        Bop::Rem => if b == 0 { X::DivZ } else { X::Int((x % y) as i64) },
+        Bop::Pow => if b >= 0 { exact_pow(a, b) } else { X::Any },
+        Bop::Shl => if (0..64).contains(&b) { X::Int(((a as u64) << b) as i64) } else { X::Any },
+        Bop::Shr => if (0..64).contains(&b) { X::Int(a >> b) } else { X::Any },
+        Bop::BAnd => X::Int(a & b), Bop::BOr => X::Int(a | b),
+    }
+}
+/// (exact result, an overflowing step was met, a ^ b with b >= 2^32 occurs)
+fn exact(e: &E) -> (X, bool, bool) {
+    match e {
+        E::Lit(n) => (if *n <= i64::MAX as u64 { X::Int(*n as i64) } else { X::Over }, false, false),
+        E::Null => (X::NullP, false, false),
+        E::Un(o, a) => {
+            let (x, ov, big) = exact(a);
+            match x {
+                X::Int(v) => {
+                    let r = match o { Uop::Neg => in64(-(v as i128)), Uop::Pos => X::Int(v), Uop::BNot => X::Int(!v) };
+                    (r, ov || r == X::Over, big)
+                }
+                r => (r, ov, big),
+            }
+        }
+        E::Bin(o, l, r) => {
+            let (xl, ol, bl) = exact(l);
+            let (xr, or, br) = exact(r);
+            let big = bl || br || (*o == Bop::Pow && matches!(**r, E::Lit(n) if n >= (1u64 << 32)));
+            let mut ov = ol || or;
+            let x = match (xl, xr) {
+                (X::Int(a), X::Int(b)) => {
+                    let x = exact_bin(*o, a, b);
+                    if x == X::Over || (*o == Bop::Rem && a == i64::MIN && b == -1) { ov = true; }
+                    x
+                }
+                (X::Any, _) | (_, X::Any) => X::Any,
+                (X::Over, X::Int(_)) | (X::Int(_), X::Over) | (X::Over, X::Over) => X::Over,
+                (X::Over, _) | (_, X::Over) => X::Any,
+                (X::DivZ, _) | (_, X::DivZ) => X::DivZ,
+                _ => X::NullP,
+            };
+            (x, ov, big)
+        }
+    }
+}
+fn obs_ok(x: X, o: &Out) -> bool {
+    match o {
+        Out::Panic | Out::None => false,
+        Out::Err => matches!(x, X::DivZ | X::Over | X::Any),
+        Out::Val(v) => match (x, v) {
+            (X::Int(z), V::Int(n)) => z == *n,
+            (X::NullP, V::Null) | (X::DivZ, V::Null) => true,
+            (X::Any, _) => true,
+            _ => false,
+        },
+    }
+}
+fn wf(e: &E) -> bool {
+    match e {
+        E::Lit(n) => *n <= i64::MAX as u64,
+        E::Null => true,
+        E::Un(_, a) => wf(a),
+        E::Bin(Bop::Pow, l, r) => wf(l) && matches!(**r, E::Lit(n) if n <= i64::MAX as u64),
+        E::Bin(_, l, r) => wf(l) && wf(r),
+    }
+}
+fn arith_class(e: &E) -> u32 { let (_, ov, big) = exact(e); if big { 2 } else if ov { 1 } else { 0 } }
+
+const BOUNDARY: [i64; 44] = [0, 1, -1, 2, -2, 3, -3, 5, 7, -7, 10, 31, 32, 62, 63, 64, 65, 100, 255, 256, -256, 65535,
+    2147483647, 2147483648, -2147483648, 4294967295, 4294967296, -4294967296, 3037000499, 3037000500, -3037000500,
+    9007199254740992, 9007199254740993, -9007199254740993, 4611686018427387904, -4611686018427387904,
+    i64::MAX, i64::MAX - 1, i64::MIN, i64::MIN + 1, 1 << 62, (1 << 62) - 1, 6074001000, -3];
+
+fn rand_int(rng: &mut Rng) -> i64 {
+    match rng.below(10) {
+        0..=3 => *rng.pick(&BOUNDARY),
+        4..=6 => rng.range(-20, 20),
+        7 => { let bits = 1 + rng.below(64) as u32; let v = rng.next() >> (64 - bits); if rng.chance(1, 2) { v as i64 } else { (v as i64).wrapping_neg() } }
+        8 => { let b = *rng.pick(&BOUNDARY); b.wrapping_add(rng.range(-2, 2)) }
+        _ => rng.range(-1000, 1000),
+    }
+}
+fn rand_expr(rng: &mut Rng, depth: u32) -> E {
+    if depth == 0 || rng.chance(1, 4) {
+        if rng.chance(1, 12) { return E::Null; }
+        return E::of_int(rand_int(rng));
+    }
+    if rng.chance(1, 7) {
+        let u = rng.pick(&UOPS).0;
+        return E::Un(u, Box::new(rand_expr(rng, depth - 1)));
+    }
+    let o = rng.pick(&BOPS).0;
+    let l = rand_expr(rng, depth - 1);
+    let r = match o {
+        Bop::Pow => E::Lit(match rng.below(8) { 0 => 0, 1 => 1, 2 => 2, 3 => 63, 4 => 64, 5 => rng.below(70), 6 => (1u64 << 32) + rng.below(3), _ => rng.below(8) }),
+        Bop::Shl | Bop::Shr if rng.chance(3, 4) => E::of_int(rng.range(-2, 66)),
+        _ => rand_expr(rng, depth - 1),
+    };
+    E::Bin(o, Box::new(l), Box::new(r))
+}
+
+fn arith_case(w: &mut CaseWriter, sut: &mut Sut, e: &E, kind: &str) {
+    let sql = e.sql();
+    let o1 = sut.select1(&format!("SELECT {}", sql));
+    let o2 = sut.select1(&format!("SELECT {} FROM one", sql));
+    let (x, _, _) = exact(e);
+    let cls = arith_class(e);
+    w.count(&format!("arith:out:{}", o1.bucket()), 1);
+    w.count(&format!("arith:class{}", cls), 1);
+    // non-trivial: an operator is applied to integers, or NULL / zero-divisor propagation is exercised
+    let nontrivial = !matches!(e, E::Lit(_) | E::Null) && x != X::Any;
+    w.push(format!("CArith {} {} {}", e.coq(), o1.coq(), o2.coq()), format!("arith {}", e.sexp()), nontrivial, kind);
+}
+
+// ------------------------------------------------------------------ numeric / control-flow functions
+const NFNS: [(&str, &str, usize, usize); 15] = [
+    ("ABS", "FAbs", 1, 1), ("SIGN", "FSign", 1, 1), ("MOD", "FMod", 2, 2), ("DIV", "FDivI", 2, 2), ("CEIL", "FCeil", 1, 1),
+    ("FLOOR", "FFloor", 1, 1), ("ROUND", "FRound", 1, 2), ("TRUNCATE", "FTrunc", 1, 2), ("GREATEST", "FGreatest", 1, 4),
+    ("LEAST", "FLeast", 1, 4), ("IF", "FIf", 3, 3), ("IFNULL", "FIfnull", 2, 2), ("NULLIF", "FNullif", 2, 2),
+    ("COALESCE", "FCoalesce", 1, 4), ("ISNULL", "FIsnull", 1, 1)];
+
+fn arg_sql(a: &Option<i64>) -> String { match a { None => "NULL".into(), Some(v) => E::of_int(*v).sql() } }
+fn arg_coq(a: &Option<i64>) -> String { match a { None => "VNull".into(), Some(v) => format!("(VInt {})", zi(*v as i128)) } }
+fn arg_val(a: &Option<i64>) -> Option<Value<'static>> { Some(match a { None => Value::Null, Some(v) => Value::Int(*v) }) }
+
+fn num_case(w: &mut CaseWriter, sut: &mut Sut, name: &str, args: &[Option<i64>], kind: &str) {
+    let f = match NFNS.iter().find(|x| x.0 == name) { Some(f) => f, None => return };
+    let vals: Vec<Option<Value<'static>>> = args.iter().map(arg_val).collect();
+    let d = call_direct(name, &vals);
+    let sql = format!("SELECT {}({})", name, args.iter().map(arg_sql).collect::<Vec<_>>().join(", "));
+    let s = sut.select1(&sql);
+    w.count(&format!("num:out:{}", d.bucket()), 1);
+    let nontrivial = args.iter().any(|a| a.is_some());
+    let rl = format!("num {} {}", name, args.iter().map(|a| match a { None => "NULL".to_string(), Some(v) => v.to_string() }).collect::<Vec<_>>().join(" "));
+    w.push(format!("CNum {} {} {} {}", f.1, clist(&args.iter().map(arg_coq).collect::<Vec<_>>()), d.coq(), s.coq()), rl, nontrivial, kind);
+}
+fn rand_num_args(rng: &mut Rng, name: &str) -> Vec<Option<i64>> {
+    let f = NFNS.iter().find(|x| x.0 == name).unwrap();
+    let n = f.2 + rng.below((f.3 - f.2 + 1) as u64) as usize;
+    let mut v: Vec<Option<i64>> = (0..n).map(|_| if rng.chance(1, 8) { None } else { Some(rand_int(rng)) }).collect();
+    if name == "ROUND" || name == "TRUNCATE" { if n == 2 { v[1] = if rng.chance(1, 4) { None } else { Some(0) }; } }
+    if name == "MOD" || name == "DIV" { if rng.chance(1, 6) { v[1] = Some(0); } if rng.chance(1, 8) { v[1] = Some(-1); } }
+    v
+}
+
+// ------------------------------------------------------------------ string functions
+#[derive(Clone, Debug, PartialEq)]
+enum SA { T(String), I(i64), N }
+impl SA {
+    fn val(&self) -> Option<Value<'static>> {
+        Some(match self { SA::T(s) => Value::Text(Cow::Owned(s.clone())), SA::I(n) => Value::Int(*n), SA::N => Value::Null })
+    }
+    fn coq(&self) -> String {
+        match self { SA::T(s) => format!("(VText {})", cbytes(s.as_bytes())), SA::I(n) => format!("(VInt {})", zi(*n as i128)), SA::N => "VNull".into() }
+    }
+    fn tok(&self) -> String {
+        match self { SA::T(s) => format!("t{}", hex(s.as_bytes())), SA::I(n) => format!("i{}", n), SA::N => "n".into() }
+    }
+    fn from_tok(t: &str) -> Option<SA> {
+        if t == "n" { Some(SA::N) }
+        else if let Some(h) = t.strip_prefix('t') { String::from_utf8(unhex(h)).ok().map(SA::T) }
+        else if let Some(i) = t.strip_prefix('i') { i.parse::<i64>().ok().map(SA::I) }
+        else { None }
+    }
+    /// SQL text of the argument; None if it cannot be written as a literal the lexer is known to take verbatim
+    fn sql(&self) -> Option<String> {
+        match self {
+            SA::T(s) => if s.chars().any(|c| (c as u32) < 0x20 || c == '\\' || c == '\u{7f}') { None } else { Some(format!("'{}'", s.replace('\'', "''"))) },
+            SA::I(n) => Some(E::of_int(*n).sql()),
+            SA::N => Some("NULL".into()),
+        }
+    }
+}
+/// (SQL name, Coq constructor, min args, max args)
+const SFNS: [(&str, &str, usize, usize); 21] = [
+    ("LENGTH", "SLength", 1, 1), ("CHAR_LENGTH", "SCharLength", 1, 1), ("ASCII", "SAscii", 1, 1), ("UPPER", "SUpper", 1, 1),
+    ("LOWER", "SLower", 1, 1), ("LEFT", "SLeft", 2, 2), ("RIGHT", "SRight", 2, 2), ("SUBSTR", "SSubstr", 2, 3), ("REVERSE", "SReverse", 1, 1),
+    ("LPAD", "SLpad", 3, 3), ("RPAD", "SRpad", 3, 3), ("INSTR", "SInstr", 2, 2), ("LOCATE", "SLocate", 2, 3), ("REPEAT", "SRepeat", 2, 2),
+    ("SPACE", "SSpace", 1, 1), ("TRIM", "STrim", 1, 1), ("LTRIM", "SLtrim", 1, 1), ("RTRIM", "SRtrim", 1, 1), ("CONCAT", "SConcat", 0, 4),
+    ("STRCMP", "SStrcmp", 2, 2), ("INSERT", "SInsert", 4, 4)];
+
+/// what the SQL path showed, relative to the direct call
+fn sql_obs(d: &Out, s: Option<Out>) -> String {
+    match s {
+        None => "NoSql".into(),
+        Some(o) => { let dn = if *d == Out::None { Out::Val(V::Null) } else { d.clone() }; if o == dn { "Same".into() } else { format!("(Obs {})", o.coq()) } }
+    }
+}
+
+/// arguments that would make the implementation allocate without bound or loop (not a panic: the process dies or hangs)
+fn str_args_runnable(name: &str, args: &[SA]) -> bool {
+    let int = |i: usize| match args.get(i) { Some(SA::I(n)) => Some(*n), _ => None };
+    let text_empty = |i: usize| matches!(args.get(i), Some(SA::T(s)) if s.is_empty());
+    let null = |i: usize| matches!(args.get(i), Some(SA::N) | None);
+    match name {
+        "REPEAT" => int(1).map_or(true, |n| n <= 64) || null(0) || text_empty(0),
+        "SPACE" => int(0).map_or(true, |n| n <= 256),
+        "LPAD" => int(1).map_or(true, |n| n <= 256) || null(0) || null(2),
+        // RPAD with a negative or huge length and a non-empty pad never terminates
+        "RPAD" => int(1).map_or(true, |n| (0..=256).contains(&n)) || null(0) || null(2) || text_empty(2),
+        _ => true,
+    }
+}
+
+fn str_case(w: &mut CaseWriter, sut: &mut Sut, name: &str, args: &[SA], kind: &str) {
+    let f = match SFNS.iter().find(|x| x.0 == name) { Some(f) => f, None => return };
+    if !str_args_runnable(name, args) { w.count("str:skipped_unrunnable", 1); return; }
+    let vals: Vec<Option<Value<'static>>> = args.iter().map(|a| a.val()).collect();
+    let d = call_direct(name, &vals);
+    let sqls: Option<Vec<String>> = args.iter().map(|a| a.sql()).collect();
+    let s = sqls.map(|xs| sut.select1(&format!("SELECT {}({})", name, xs.join(", "))));
+    w.count(&format!("str:out:{}", d.bucket()), 1);
+    if s.is_none() { w.count("str:direct_only", 1); }
+    let multibyte = args.iter().any(|a| matches!(a, SA::T(t) if !t.is_ascii()));
+    if multibyte { w.count("str:multibyte_argument", 1); }
+    let nontrivial = args.iter().any(|a| matches!(a, SA::T(t) if !t.is_empty()));
+    let rl = format!("str {} {}", name, args.iter().map(|a| a.tok()).collect::<Vec<_>>().join(" "));
+    let so = sql_obs(&d, s);
+    w.push(format!("CStr {} {} {} {}", f.1, clist(&args.iter().map(|a| a.coq()).collect::<Vec<_>>()), d.coq(), so), rl, nontrivial, kind);
+}
+
+const CP_POOL: [u32; 40] = [0x61, 0x62, 0x63, 0x41, 0x5A, 0x7A, 0x30, 0x20, 0x20, 0x2C, 0x27, 0x7E, 0x7F, 0x09, 0x0A,
+    0x80, 0xA0, 0xE9, 0xDF, 0x301, 0x3A3, 0x7FF, 0x800, 0x1680, 0x2003, 0x2028, 0x3000, 0x65E5, 0x672C, 0xD7FF, 0xE000, 0xFEFF, 0xFFFD, 0xFFFF,
+    0x10000, 0x1D11E, 0x1F600, 0x10FFFF, 0x61, 0x20];
+fn rand_cp(rng: &mut Rng) -> char {
+    loop {
+        let c = match rng.below(10) {
+            0..=5 => *rng.pick(&CP_POOL),
+            6 => 0x20 + rng.below(0x5F) as u32,
+            7 => 0x80 + rng.below(0x780) as u32,
+            8 => 0x800 + rng.below(0xF800) as u32,
+            _ => 0x10000 + rng.below(0x100000) as u32,
+        };
+        if let Some(ch) = char::from_u32(c) { if c != 0 { return ch; } }
+    }
+}
+fn rand_string(rng: &mut Rng) -> String {
+    let n = match rng.below(8) { 0 => 0, 1 => 1, _ => rng.below(9) as usize };
+    let ascii_only = rng.chance(1, 4);
+    (0..n).map(|_| if ascii_only { (0x20 + rng.below(0x5F) as u8) as char } else { rand_cp(rng) }).collect()
+}
+fn rand_small_int(rng: &mut Rng) -> i64 {
+    match rng.below(12) {
+        0 => i64::MIN, 1 => i64::MAX, 2 => -1, 3 => 0, 4 => i64::MIN + 1, 5 => rng.range(-12, -1),
+        _ => rng.range(0, 12),
+    }
+}
+fn rand_substring(rng: &mut Rng, s: &str) -> String {
+    let cs: Vec<char> = s.chars().collect();
+    if cs.is_empty() { return String::new(); }
+    let a = rng.below(cs.len() as u64) as usize;
+    let l = 1 + rng.below((cs.len() - a).min(3) as u64) as usize;
+    cs[a..a + l].iter().collect()
+}
+fn rand_str_args(rng: &mut Rng, name: &str) -> Vec<SA> {
+    let f = SFNS.iter().find(|x| x.0 == name).unwrap();
+    let n = f.2 + rng.below((f.3 - f.2 + 1) as u64) as usize;
+    let t = |rng: &mut Rng| SA::T(rand_string(rng));
+    let mut v: Vec<SA> = match name {
+        "LEFT" | "RIGHT" => vec![t(rng), SA::I(rand_small_int(rng))],
+        "SUBSTR" => { let mut v = vec![t(rng), SA::I(rand_small_int(rng))]; if n == 3 { v.push(SA::I(rand_small_int(rng))); } v }
+        "LPAD" | "RPAD" => vec![t(rng), SA::I(match rng.below(10) { 0 => -1, 1 => i64::MIN, 2 => 0, _ => rng.range(0, 14) }), if rng.chance(1, 6) { SA::T(String::new()) } else { t(rng) }],
+        "INSTR" => { let h = rand_string(rng); let nd = if rng.chance(2, 3) { rand_substring(rng, &h) } else { rand_string(rng) }; vec![SA::T(h), SA::T(nd)] }
+        "LOCATE" => { let h = rand_string(rng); let nd = if rng.chance(2, 3) { rand_substring(rng, &h) } else { rand_string(rng) };
+                      let mut v = vec![SA::T(nd), SA::T(h)]; if n == 3 { v.push(SA::I(match rng.below(8) { 0 => 0, 1 => -1, 2 => i64::MAX, _ => rng.range(1, 9) })); } v }
+        "REPEAT" => vec![t(rng), SA::I(match rng.below(8) { 0 => -1, 1 => 0, 2 => i64::MIN, _ => rng.range(1, 6) })],
+        "SPACE" => vec![SA::I(match rng.below(8) { 0 => -1, 1 => 0, 2 => i64::MIN, _ => rng.range(1, 20) })],
+        "STRCMP" => { let a = rand_string(rng); let b = if rng.chance(1, 3) { a.clone() } else if rng.chance(1, 2) { let mut b = a.clone(); b.push(rand_cp(rng)); b } else { rand_string(rng) }; vec![SA::T(a), SA::T(b)] }
+        "INSERT" => vec![t(rng), SA::I(rand_small_int(rng)), SA::I(rand_small_int(rng)), t(rng)],
+        "UPPER" | "LOWER" => vec![SA::T((0..rng.below(9)).map(|_| (0x20 + rng.below(0x5F) as u8) as char).collect())],
+        "TRIM" | "LTRIM" | "RTRIM" => { let mut s = String::new(); for _ in 0..rng.below(3) { s.push(*rng.pick(&[' ', ' ', '\t', '\u{a0}', '\u{3000}', '\n'])); }
+                                        s.push_str(&rand_string(rng)); for _ in 0..rng.below(3) { s.push(*rng.pick(&[' ', ' ', '\t', '\u{2003}', '\u{85}'])); } vec![SA::T(s)] }
+        _ => (0..n).map(|_| t(rng)).collect(),
+    };
+    // NULL in some position
+    if !v.is_empty() && rng.chance(1, 12) { let i = rng.below(v.len() as u64) as usize; v[i] = SA::N; }
+    v
+}
+
+// ------------------------------------------------------------------ date functions
+#[derive(Clone, Debug, PartialEq)]
+enum DA { D(i64, i64, i64), I(i64), N }
+impl DA {
+    fn text(&self) -> Option<String> { if let DA::D(y, m, d) = self { Some(format!("{:04}-{:02}-{:02}", y, m, d)) } else { None } }
+    fn val(&self) -> Option<Value<'static>> {
+        Some(match self { DA::D(..) => Value::Text(Cow::Owned(self.text().unwrap())), DA::I(n) => Value::Int(*n), DA::N => Value::Null })
+    }
+    fn coq(&self) -> String {
+        match self { DA::D(y, m, d) => format!("(DDate {} {} {})", y, m, d), DA::I(n) => format!("(DNum {})", zi(*n as i128)), DA::N => "DNullA".into() }
+    }
+    fn tok(&self) -> String { match self { DA::D(..) => format!("d{}", self.text().unwrap()), DA::I(n) => format!("i{}", n), DA::N => "n".into() } }
+    fn from_tok(t: &str) -> Option<DA> {
+        if t == "n" { return Some(DA::N); }
+        if let Some(i) = t.strip_prefix('i') { return i.parse::<i64>().ok().map(DA::I); }
+        let d = t.strip_prefix('d')?;
+        let p: Vec<&str> = d.split('-').collect();
+        if p.len() != 3 { return None; }
+        let (y, m, dd) = (p[0].parse::<i64>().ok()?, p[1].parse::<i64>().ok()?, p[2].parse::<i64>().ok()?);
+        if (0..=9999).contains(&y) && (0..=99).contains(&m) && (0..=99).contains(&dd) { Some(DA::D(y, m, dd)) } else { None }
+    }
+    fn sql(&self) -> String { match self { DA::D(..) => format!("'{}'", self.text().unwrap()), DA::I(n) => E::of_int(*n).sql(), DA::N => "NULL".into() } }
+}
+const DFNS: [(&str, &str, usize); 11] = [("YEAR", "DYear", 1), ("MONTH", "DMonth", 1), ("DAY", "DDay", 1), ("DAYOFWEEK", "DDayOfWeek", 1),
+    ("DAYOFYEAR", "DDayOfYear", 1), ("TO_DAYS", "DToDays", 1), ("FROM_DAYS", "DFromDays", 1), ("LAST_DAY", "DLastDay", 1),
+    ("DATEDIFF", "DDateDiff", 2), ("DATE_ADD", "DDateAdd", 2), ("DATE_SUB", "DDateSub", 2)];
+
+fn date_case(w: &mut CaseWriter, sut: &mut Sut, name: &str, args: &[DA], kind: &str) {
+    let f = match DFNS.iter().find(|x| x.0 == name) { Some(f) => f, None => return };
+    let vals: Vec<Option<Value<'static>>> = args.iter().map(|a| a.val()).collect();
+    let d = call_direct(name, &vals);
+    let s = sut.select1(&format!("SELECT {}({})", name, args.iter().map(|a| a.sql()).collect::<Vec<_>>().join(", ")));
+    w.count(&format!("date:out:{}", d.bucket()), 1);
+    let valid = args.iter().all(|a| match a { DA::D(y, m, dd) => *y >= 1 && is_valid_date(*y, *m, *dd), _ => true });
+    w.count(if valid { "date:valid_dates" } else { "date:invalid_date" }, 1);
+    let rl = format!("date {} {}", name, args.iter().map(|a| a.tok()).collect::<Vec<_>>().join(" "));
+    let so = sql_obs(&d, Some(s));
+    w.push(format!("CDate {} {} {} {}", f.1, clist(&args.iter().map(|a| a.coq()).collect::<Vec<_>>()), d.coq(), so), rl, valid, kind);
+}
+fn is_leap(y: i64) -> bool { (y % 4 == 0 && y % 100 != 0) || y % 400 == 0 }
+fn dim(y: i64, m: i64) -> i64 { match m { 1 | 3 | 5 | 7 | 8 | 10 | 12 => 31, 4 | 6 | 9 | 11 => 30, 2 => if is_leap(y) { 29 } else { 28 }, _ => 0 } }
+fn is_valid_date(y: i64, m: i64, d: i64) -> bool { (1..=12).contains(&m) && d >= 1 && d <= dim(y, m) }
+fn rand_date(rng: &mut Rng) -> DA {
+    let y = match rng.below(8) { 0 => *rng.pick(&[1i64, 2, 4, 100, 400, 1582, 1600, 1900, 1970, 2000, 2024, 2100, 9999, 9996]), 1 => rng.range(1, 9999), 2 => rng.range(1900, 2100), _ => rng.range(1, 9999) };
+    let m = rng.range(1, 12);
+    match rng.below(10) {
+        0 => DA::D(y, m, 1),
+        1 | 2 => DA::D(y, m, dim(y, m)),
+        3 => DA::D(y, 2, dim(y, 2) - rng.range(0, 1)),
+        4 => DA::D(y, 3, 1),
+        5 => DA::D(y, 12, 31),
+        6 => DA::D(y, 1, 1),
+        7 => DA::D(if rng.chance(1, 3) { 0 } else { y }, rng.range(0, 13), rng.range(0, 32)),      // often not a date
+        _ => DA::D(y, m, rng.range(1, dim(y, m))),
+    }
+}
+fn rand_days(rng: &mut Rng) -> i64 {
+    match rng.below(12) {
+        0 => 0, 1 => 1, 2 => -1, 3 => rng.range(-40, 40), 4 => 365, 5 => 366, 6 => rng.range(-800, 800), 7 => rng.range(-3_700_000, 3_700_000),
+        8 => *rng.pick(&[i64::MAX, i64::MIN, 1 << 62, 92233720368547757, 92233720368547758, -92233720368547760, 92233720368547000]),
+        _ => rng.range(-100_000, 100_000),
+    }
+}
+fn rand_date_args(rng: &mut Rng, name: &str) -> Vec<DA> {
+    let mut v = match name {
+        "FROM_DAYS" => vec![DA::I(match rng.below(6) { 0 => rng.range(-400, 800), 1 => *rng.pick(&[0i64, 1, 366, 3652059, 3652060, i64::MAX, i64::MIN, 92233720368547757, 92233720368547452, 92233720368547453]), _ => rng.range(1, 3_652_059) })],
+        "DATEDIFF" => vec![rand_date(rng), rand_date(rng)],
+        "DATE_ADD" | "DATE_SUB" => vec![rand_date(rng), DA::I(rand_days(rng))],
+        _ => vec![rand_date(rng)],
+    };
+    if rng.chance(1, 15) { let i = rng.below(v.len() as u64) as usize; v[i] = DA::N; }
+    v
+}
+
+// ------------------------------------------------------------------ gen
+fn gen(a: &Args) {
+    let mut rng = Rng::new(a.seed);
+    let mut w = CaseWriter::new(&a.out, "C20", "Corr.C20", 700);
+    let mut sut = Sut::new();
+    if let Some(lines) = a.replay_lines() {
+        for l in lines { replay_line(&mut w, &mut sut, &l); }
+        sut.cleanup();
+        w.finish(&[]);
+        return;
+    }
+    let thorough = a.thorough();
+    // ---- arithmetic: every operator on boundary x boundary (sampled in the quick tier), then random trees
+    for (o, _, _) in BOPS {
+        for (i, x) in BOUNDARY.iter().enumerate() {
+            for (j, y) in BOUNDARY.iter().enumerate() {
+                if !thorough && (i * 7 + j * 3 + o as usize) % 11 != 0 { continue; }
+                if o == Bop::Pow && *y < 0 { continue; }
+                let r = if o == Bop::Pow { E::Lit(*y as u64) } else { E::of_int(*y) };
+                let e = E::Bin(o, Box::new(E::of_int(*x)), Box::new(r));
+                arith_case(&mut w, &mut sut, &e, "arith:boundary_pair");
+            }
+        }
+    }
+    for (u, _, _, _) in UOPS { for x in BOUNDARY { arith_case(&mut w, &mut sut, &E::Un(u, Box::new(E::of_int(x))), "arith:unary"); } }
+    let n_tree = if thorough { 60_000 } else { 1_500 };
+    for _ in 0..n_tree {
+        let d = 1 + rng.below(3) as u32;
+        let e = rand_expr(&mut rng, d);
+        arith_case(&mut w, &mut sut, &e, "arith:random_tree");
+    }
+    // ---- numeric functions
+    for f in NFNS {
+        if f.2 == 1 { for x in BOUNDARY { num_case(&mut w, &mut sut, f.0, &[Some(x)], "num:boundary"); } num_case(&mut w, &mut sut, f.0, &[None], "num:null"); }
+        let n = if thorough { 3_000 } else { 120 };
+        for _ in 0..n { let args = rand_num_args(&mut rng, f.0); num_case(&mut w, &mut sut, f.0, &args, "num:random"); }
+    }
+    // ---- string functions: Unicode strings from all planes
+    for f in SFNS {
+        let n = if thorough { 4_000 } else { 160 };
+        for _ in 0..n { let args = rand_str_args(&mut rng, f.0); str_case(&mut w, &mut sut, f.0, &args, "str:random"); }
+    }
+    for s0 in ["", "a", "héllo", "e\u{301}\u{301}", "日本語", "𝄞x", "a\u{10FFFF}b", "  x  ", "\u{3000}x\u{a0}", "it's", "ÀB", "ß"] {
+        for f in SFNS { if f.2 == 1 && f.3 == 1 { str_case(&mut w, &mut sut, f.0, &[SA::T(s0.to_string())], "str:fixed"); } }
+        for k in [-1i64, 0, 1, 2, 3, 100, i64::MAX, i64::MIN] {
+            for nm in ["LEFT", "RIGHT", "SUBSTR"] { str_case(&mut w, &mut sut, nm, &[SA::T(s0.to_string()), SA::I(k)], "str:fixed"); }
+        }
+    }
+    // ---- date functions
+    for f in DFNS {
+        let n = if thorough { 6_000 } else { 250 };
+        for _ in 0..n { let args = rand_date_args(&mut rng, f.0); date_case(&mut w, &mut sut, f.0, &args, "date:random"); }
+    }
+    // every month boundary of a block of years (every 7th year in the thorough tier), and both ends of the range
+    let years: Vec<i64> = if thorough { (1..=9999).step_by(7).chain([4, 100, 400, 1900, 2000, 2024, 9999]).collect() } else { vec![1, 4, 100, 1900, 2000, 2023, 2024, 9999] };
+    for y in years {
+        for m in 1..=12 {
+            let last = dim(y, m);
+            date_case(&mut w, &mut sut, "LAST_DAY", &[DA::D(y, m, 1)], "date:month_boundary");
+            date_case(&mut w, &mut sut, "DATE_ADD", &[DA::D(y, m, last), DA::I(1)], "date:month_boundary");
+            date_case(&mut w, &mut sut, "DATE_SUB", &[DA::D(y, m, 1), DA::I(1)], "date:month_boundary");
+            date_case(&mut w, &mut sut, "DAYOFYEAR", &[DA::D(y, m, last)], "date:month_boundary");
+            date_case(&mut w, &mut sut, "DAYOFWEEK", &[DA::D(y, m, 1)], "date:month_boundary");
+        }
+    }
+    let created = sut.created;
+    sut.cleanup();
+    w.finish(&[("databases_created".to_string(), created.to_string())]);
+}
+
+fn strip_tag(l: &str) -> &str { match l.find(" #") { Some(i) => &l[..i], None => l } }
+
+fn replay_line(w: &mut CaseWriter, sut: &mut Sut, l: &str) {
+    let l = strip_tag(l).trim();
+    if let Some(r) = l.strip_prefix("arith ") {
+        if let Some(e) = E::parse(r) { if wf(&e) { arith_case(w, sut, &e, "replay"); } }
+    } else if let Some(r) = l.strip_prefix("num ") {
+        let mut it = r.split_whitespace();
+        let name = it.next().unwrap_or("").to_string();
+        let args: Vec<Option<i64>> = it.map(|t| if t == "NULL" { None } else { t.parse::<i64>().ok() }).collect();
+        num_case(w, sut, &name, &args, "replay");
+    } else if let Some(r) = l.strip_prefix("str ") {
+        let mut it = r.split_whitespace();
+        let name = it.next().unwrap_or("").to_string();
+        let args: Option<Vec<SA>> = it.map(SA::from_tok).collect();
+        if let Some(args) = args { str_case(w, sut, &name, &args, "replay"); }
+    } else if let Some(r) = l.strip_prefix("date ") {
+        let mut it = r.split_whitespace();
+        let name = it.next().unwrap_or("").to_string();
+        let args: Option<Vec<DA>> = it.map(DA::from_tok).collect();
+        if let Some(args) = args { date_case(w, sut, &name, &args, "replay"); }
+    }
+}
+
+// ------------------------------------------------------------------ search: the property's oracle on the implementation only
+fn search(a: &Args) {
+    let mut rng = Rng::new(a.seed ^ 0xC20C20);
+    let mut sut = Sut::new();
+    let mut fails: Vec<String> = vec![];
+    let mut tried: u64 = 0;
+    let budget = a.budget.min(400_000);
+    while tried < budget {
+        let d = 1 + rng.below(3) as u32;
+        let e = rand_expr(&mut rng, d);
+        let o = sut.select1(&format!("SELECT {}", e.sql()));
+        tried += 1;
+        let (x, _, _) = exact(&e);
+        if !obs_ok(x, &o) && fails.len() < 60 { fails.push(format!("arith {} #class={}", e.sexp(), arith_class(&e))); }
+    }
+    sut.cleanup();
+    let mut out = format!("tried={}\n", tried);
+    for f in &fails { out.push_str("FAIL "); out.push_str(f); out.push('\n'); }
+    std::fs::write(&a.out, out).expect("write search output");
+}
+
+// ------------------------------------------------------------------ debug helper
+fn sql_mode(a: &Args) {
     let file = a.rest.get(0).expect("file");
-    let dir = std::path::PathBuf::from(format!("/verif/build/tmp/c20-{}", std::process::id()));
-    let _ = std::fs::remove_dir_all(&dir);
-    std::fs::create_dir_all(&dir).expect("mkdir");
-    let db = Database::create(dir.join("db")).expect("create");
+    let mut sut = Sut::new();
+    sut.fresh();
     for l in std::fs::read_to_string(file).unwrap().lines() {
         let l = l.trim();
         if l.is_empty() || l.starts_with('#') { continue; }
+        if sut.db.is_none() { sut.fresh(); }
+        let db = sut.db.as_ref().unwrap();
         if l.to_uppercase().starts_with("SELECT") {
             let l2 = l.to_string();
             match catch(std::panic::AssertUnwindSafe(|| db.query(&l2))) {
                 Caught::Done(Ok(rows)) => {
-                    let s: Vec<String> = rows.iter().map(|r| format!("({})", r.values.iter().map(show).collect::<Vec<_>>().join(","))).collect();
+                    let s: Vec<String> = rows.iter().map(|r| format!("({})", r.values.iter().map(|v| format!("{:?}", v)).collect::<Vec<_>>().join(","))).collect();
                     println!("{}\n   => {}", l, s.join(" "));
                 }
                 Caught::Done(Err(e)) => println!("{}\n   => ERR {:#}", l, e),
-                Caught::Panicked(m) => println!("{}\n   => PANIC {}", l, m),
+                Caught::Panicked(m) => { println!("{}\n   => PANIC {}", l, m); sut.db = None; }
             }
         } else if let Err(e) = db.execute(l) { println!("{}\n   => ERR {:#}", l, e) }
     }
-    drop(db);
-    let _ = std::fs::remove_dir_all(&dir);
+    sut.cleanup();
+    let _ = Cow::Borrowed("");
 }
